@@ -42,6 +42,7 @@ theorem writeToAux_spec (fuel : Nat) (c : WConn) (p : Bytes) :
         · intro hk; rw [h3 hk, List.take_append_drop]
     | hard => exact ⟨p.take n, hlog, List.take_prefix n p, by simp⟩
     | closed => exact ⟨p.take n, hlog, List.take_prefix n p, by simp⟩
+    | gate => exact ⟨p.take n, hlog, List.take_prefix n p, by simp⟩
 
 theorem bufsLen_eq (v : List Bytes) : bufsLen v = v.flatten.length := by
   induction v with
@@ -94,6 +95,10 @@ theorem buffersWriteToAux_spec (c : WConn) (n : Nat) (v : List Bytes) :
       refine ⟨nb, rfl, by simp only [List.flatten_cons, List.length_append]; omega, ?_, by simp⟩
       simp only [hlog, List.flatten_cons]
       rw [List.take_append_of_le_length hle]
+    | gate =>
+      refine ⟨nb, rfl, by simp only [List.flatten_cons, List.length_append]; omega, ?_, by simp⟩
+      simp only [hlog, List.flatten_cons]
+      rw [List.take_append_of_le_length hle]
 
 theorem writeBuffersToAux_spec (fuel : Nat) (c : WConn) (v : List Bytes) :
     ∃ q, (writeBuffersToAux fuel c v).1.log = c.log ++ q ∧ q <+: v.flatten ∧
@@ -124,5 +129,6 @@ theorem writeBuffersToAux_spec (fuel : Nat) (c : WConn) (v : List Bytes) :
         · intro hk; rw [g3 hk, List.take_append_drop]
     | hard => exact ⟨v.flatten.take n, h3, List.take_prefix _ _, by simp⟩
     | closed => exact ⟨v.flatten.take n, h3, List.take_prefix _ _, by simp⟩
+    | gate => exact ⟨v.flatten.take n, h3, List.take_prefix _ _, by simp⟩
 
 end Model
